@@ -17,7 +17,8 @@ def decCfg : List V → Option Cfg
   | _ => none
 
 def decOp : List V → Option Op
-  | [.a "request", b] => do pure (.request (← b.bool?))
+  | [.a "request", b, l] => do pure (.request (← b.bool?) (← l.bool?))
+  | [.a "opened", s, b] => do pure (.opened (← s.nat?) (← b.bool?))
   | [.a "respond", c] => do pure (.respond (← c.nat?))
   | [.a "timeout", c] => do pure (.timeout (← c.nat?))
   | [.a "die", s] => do pure (.die (← s.nat?))
@@ -45,6 +46,7 @@ def encEv : Ev → V
   | .created sid ok => .l [.a "created", V.ofNat sid, V.ofBool ok]
   | .closed sid => .l [.a "closed", V.ofNat sid]
   | .sent sid c => .l [.a "sent", V.ofNat sid, V.ofNat c]
+  | .connecting sid c => .l [.a "connecting", V.ofNat sid, V.ofNat c]
   | .queued c => .l [.a "queued", V.ofNat c]
   | .rel sid => .l [.a "rel", V.ofNat sid]
   | .done c out => .l [.a "done", V.ofNat c, encOutcome out]
@@ -54,6 +56,7 @@ def decEv : V → Option Ev
   | .l [.a "created", sid, ok] => do pure (.created (← sid.nat?) (← ok.bool?))
   | .l [.a "closed", sid] => do pure (.closed (← sid.nat?))
   | .l [.a "sent", sid, c] => do pure (.sent (← sid.nat?) (← c.nat?))
+  | .l [.a "connecting", sid, c] => do pure (.connecting (← sid.nat?) (← c.nat?))
   | .l [.a "queued", c] => do pure (.queued (← c.nat?))
   | .l [.a "rel", sid] => do pure (.rel (← sid.nat?))
   | .l [.a "done", c, out] => do pure (.done (← c.nat?) (← decOutcome out))
@@ -88,13 +91,20 @@ def isLent (v : View) (sid : Nat) : Bool :=
   | none => false
 def lentIds (v : View) : List Nat := (List.range v.sinks.length).filter (isLent v)
 
+def isOpening (v : View) (sid : Nat) : Bool :=
+  match v.sinks[sid]? with
+  | some k => k.opening && k.lent.isSome
+  | none => false
+/-- connections whose `Open()` is still pending (a call's greenlet is blocked on it) -/
+def openingIds (v : View) : List Nat := (List.range v.sinks.length).filter (isOpening v)
+
 /-- connections that are alive and not lent to any call -/
 def idleIds (v : View) : List Nat :=
   (List.range v.sinks.length).filter (fun i => isAlive v i && !isLent v i)
 
 def allDone (v : View) : Bool := v.calls.all (· == .done)
 
-/-- may call `c` still be given a connection: it is arriving or waiting -/
+/-- may call `c` be given a connection: it is arriving or waiting in the queue -/
 def startable (v : View) (c : Nat) : Bool :=
   v.calls[c]? == some .arriving || v.calls[c]? == some .pending
 
@@ -115,11 +125,25 @@ def evCheck (cfg : Cfg) (handoff fifoGate : Bool) (v : View) : Ev → Verdict
     | none => .fail "ids" [.a "sent", V.ofNat sid]
     | some k =>
       match k.lent with
-      | some c' => .fail "exclusive" [V.ofNat sid, V.ofNat c, V.ofNat c']
+      | some c' =>
+        -- the connection was being opened for this very call: its connect has ended
+        if k.opening && c' == c then .ok
+        else .fail "exclusive" [V.ofNat sid, V.ofNat c, V.ofNat c']
       | none =>
         if !startable v c then .fail "started-nonwaiting" [V.ofNat sid, V.ofNat c]
         else if handoff && oldestPending v != some c then
           .fail "fifo" [V.ofNat c, .l ((pendingIds v).map V.ofNat)]
+        else if !handoff && fifoGate && !(pendingIds v).isEmpty then
+          .fail "fifo-overtake" [V.ofNat c, .l ((pendingIds v).map V.ofNat)]
+        else .ok
+  | .connecting sid c =>
+    match v.sinks[sid]? with
+    | none => .fail "ids" [.a "connecting", V.ofNat sid]
+    | some k =>
+      match k.lent with
+      | some c' => .fail "exclusive" [V.ofNat sid, V.ofNat c, V.ofNat c']
+      | none =>
+        if v.calls[c]? != some .arriving then .fail "started-nonwaiting" [V.ofNat sid, V.ofNat c]
         else if !handoff && fifoGate && !(pendingIds v).isEmpty then
           .fail "fifo-overtake" [V.ofNat c, .l ((pendingIds v).map V.ofNat)]
         else .ok
@@ -129,6 +153,8 @@ def evCheck (cfg : Cfg) (handoff fifoGate : Bool) (v : View) : Ev → Verdict
     match v.calls[c]? with
     | none => .fail "ids" [.a "done", V.ofNat c]
     | some .done => .fail "once" [V.ofNat c]
+    | some (.orphan _) => .fail "once" [V.ofNat c]
+    | some (.zombie _) => .fail "once" [V.ofNat c]
     | some _ => .ok
   | .rel _ => .ok
   | .closed _ => .ok
@@ -173,9 +199,12 @@ def doneWith (evs : List Ev) (c : Nat) (out : Outcome) : Bool := evs.contains (.
 /-- surplus requests fail at once with MaxWaiters -/
 def clSurplus (cfg : Cfg) (m : Mon) (op : Op) (o : Obs) : Verdict :=
   match op with
-  | .request _ =>
+  | .request _ _ =>
     if cfg.maxq ≤ (pendingIds m.view).length
-        && !(o.evs.any (fun e => match e with | .sent _ c' => c' == m.view.calls.length | _ => false))
+        && !(o.evs.any (fun e => match e with
+                                 | .sent _ c' => c' == m.view.calls.length
+                                 | .connecting _ c' => c' == m.view.calls.length
+                                 | _ => false))
         && !doneWith o.evs m.view.calls.length .maxWaiters then
       .fail "surplus-not-failed" [V.ofNat m.view.calls.length]
     else .ok
